@@ -2,4 +2,5 @@ SPECIFICATION Spec
 CONSTANTS
   Families = {"A1", "B", "C0", "E0", "K0", "R"}
 PROPERTY DescriptionTrue
+PROPERTY DescriptionStable
 CHECK_DEADLOCK FALSE
